@@ -1078,6 +1078,12 @@ func cmdServe(args []string) {
 					*c = *cloneConfig(cfg)
 					m, err = live, live.Reconfigure(c)
 				} else {
+					if nth%8 == 2 {
+						// ... by way of a passthrough phase during which NOTHING is served: whatever numbers, stamps or remembers
+						// configurations starts again from the beginning, while handlers wrapped long ago still hold what they
+						// remembered of the configuration before
+						live.Reconfigure(nil)
+					}
 					m, err = live, live.Reconfigure(cfg)
 				}
 				reused++
@@ -1088,6 +1094,11 @@ func cmdServe(args []string) {
 				err = m.Reconfigure(cfg)
 			} else {
 				m, err = cors.NewMiddleware(*cfg)
+				if err == nil && nth%3 == 0 {
+					// Wrap once, serve for ever: two handlers wrapped right after construction serve every request of this
+					// middleware, under this configuration and under those it is reconfigured to later
+					wrapEarly(m)
+				}
 			}
 			if err != nil {
 				rejected++
@@ -1185,7 +1196,13 @@ func cmdServe(args []string) {
 			}
 			variants = append(variants, variant{keysNil, nil, 0, true}, variant{keysEmpty, nil, 0, true})
 		}
-		for _, dbg := range []bool{false, true} {
+		// (the order of the two debug modes alternates: the last requests of one configuration and the first of the next - with or
+		// without a passthrough phase in between - are served in the SAME mode every other time, in different modes otherwise)
+		dbgOrder := []bool{false, true}
+		if nth%2 == 0 {
+			dbgOrder = []bool{true, false}
+		}
+		for _, dbg := range dbgOrder {
 			if !dbg && !s.Pass && nth%3 == 2 {
 				// "debug off" reached the OTHER documented way: turned on, then through passthrough (which switches it off) and
 				// back to the same configuration (which keeps it as it is) - no SetDebug(false) is ever called
